@@ -120,6 +120,12 @@ func c17Run(input string) string {
 	if len(f) != 6 {
 		return "bad-input"
 	}
+	if f[0] == "vc" {
+		return c17RunVC(f)
+	}
+	if f[0] == "proof" {
+		return c17RunProof(f)
+	}
 	entry := f[0]
 	n, err := strconv.Atoi(f[1])
 	if err != nil || n < 1 || n > 300 || len(f[2]) != n {
@@ -414,6 +420,11 @@ func c17Gen(r *Rng, tier string) []string {
 		}
 		emit(n, rev)
 	}
+	nvc := 90
+	if tier == "thorough" {
+		nvc = 2500
+	}
+	out = append(out, c17VCGen(r, nvc)...)
 	return out
 }
 
